@@ -9,7 +9,7 @@ DEVIATIONS = ('wrong-id', 'id-plus-2^32', 'other-pub-time', 'other-aggr-time', '
               'other-input-hash', 'altered-right-link', 'status-nonzero', 'status-nonzero-with-chain', 'error-pdu', 'bad-mac', 'other-key-valid-mac', 'other-pdu-version',
               'no-chain', 'truncated', 'garbled', 'transport-error', 'http-500', 'consistent-chain-for-other-second',
               # the same deviations in a reply that carries no status element at all
-              'no-status+wrong-id', 'no-status+other-pub-time', 'no-status+other-aggr-time', 'no-status+wrong-shape-add-link', 'no-status+other-input-hash')
+              'no-header-valid-mac', 'no-mac', 'no-status+wrong-id', 'no-status+other-pub-time', 'no-status+other-aggr-time', 'no-status+wrong-shape-add-link', 'no-status+other-input-hash')
 NOT_JUDGED = ('no-status+honest',)     # a complete, correct reply without a status element: the property does not say (the library reads it as status 0)
 
 
@@ -108,6 +108,10 @@ class Extender:
                 kw['mac_key'] = bytes(rng.getrandbits(8) for _ in range(rng.randint(2, 70)))
         elif b == 'other-pdu-version':
             ver = 3 - ver
+        elif b == 'no-header-valid-mac':
+            kw['header'] = False
+        elif b == 'no-mac':
+            kw['mac'] = False
         if b == 'error-pdu':
             body = S.error_pdu('ext', ver, self.key, status=rng.choice([0x101, 0x200]), alg=self.alg, login=self.login)
         else:
@@ -212,12 +216,15 @@ def run_worker(job, r):
             continue
         nseen = len(srv.seen)
         if not transport.startswith('async'):
+            rc_opt = ' reusectx=1' if rng.random() < 0.3 else ''       # the caller's own verification context, just used on the original
             if pubstr:
-                q = cmd('extend 0 0 1 pub=%s' % pubstr)
+                q = cmd('extend 0 0 1 pub=%s%s' % (pubstr, rc_opt))
             elif target is not None:
-                q = cmd('extend 0 0 1 to=%d' % target)
+                q = cmd('extend 0 0 1 to=%d%s' % (target, rc_opt))
             else:
-                q = cmd('extend 0 0 1')
+                q = cmd('extend 0 0 1' + rc_opt)
+            if rc_opt:
+                r.count('extensions_with_reused_context')
             rc, sig = q.rc, q.get('sig')
         else:
             if how in ('head', 'to-later', 'to-equal', 'to-earlier'):
